@@ -30,6 +30,7 @@ pub fn expand(input: &DeriveInput, trait_name: &str) -> TokenStream {
     };
 
     quote! {
+        #[allow(deprecated)] // omit warnings on deprecated fields/variants
         #[automatically_derived]
         impl #impl_generics derive_more::core::ops::#trait_ident
          for #input_type #ty_generics #where_clause {
